@@ -65,6 +65,9 @@ type VC struct {
 	closureOrd map[*ssa.Function]int
 	pureAxiomsDone map[string]bool
 	tparamsEnv map[string]types.Type
+	callOrd map[ssa.Instruction]int
+	epochs  int
+	curState *State // state receiving heap well-formedness facts discovered while translating clauses
 }
 
 func newVC(w *World, specs *Specs, tt *TypeTable) *VC {
@@ -141,6 +144,11 @@ func (vc *VC) hget(h *Heap, name string, s Sort) Term {
 	if t, ok := h.cur[name]; ok {
 		return t
 	}
+	if h.epoch != "" {
+		t := vc.d.declConst(name+"@"+h.epoch, s)
+		h.cur[name] = t
+		return t
+	}
 	return vc.d.declConst(name, s)
 }
 
@@ -180,6 +188,39 @@ func (vc *VC) applyFun(sig *types.Signature, tp map[string]types.Type) string {
 	name += "__" + sortID(res)
 	vc.d.declFun(name, sorts, res)
 	return name
+}
+
+// applyPreFun names the precondition predicate of function values of a signature.
+func (vc *VC) applyPreFun(sig *types.Signature) string {
+	sorts := []Sort{"Int"}
+	name := "applypre"
+	for i := 0; i < sig.Params().Len(); i++ {
+		s := sortOf(sig.Params().At(i).Type())
+		sorts = append(sorts, s)
+		name += "_" + sortID(s)
+	}
+	vc.d.declFun(name, sorts, "Bool")
+	return name
+}
+
+// refKeyed reports whether a heap variable is an array indexed by object references (subject to allocation framing).
+func (vc *VC) refKeyed(name string) bool {
+	if strings.HasPrefix(name, "Glob_") {
+		return false
+	}
+	if strings.HasPrefix(name, "GV_") {
+		gv := vc.specs.GhostVars[strings.TrimPrefix(name, "GV_")]
+		if gv == nil {
+			return false
+		}
+		if mt, ok := gv.Type.(*ast.MapType); ok {
+			if id, ok := mt.Key.(*ast.Ident); ok && id.Name == "Ref" {
+				return true
+			}
+		}
+		return false
+	}
+	return strings.HasPrefix(vc.arrays[name], "(Array Int ")
 }
 
 // stepField follows one field index from cur (pointer to struct, or struct sub-object address).
@@ -259,6 +300,18 @@ func (e *Env) lvals(x ast.Expr) []LV {
 			vc.hget(e.heap, cellArr(s), arrSort(s))
 			return []LV{{Arr: cellArr(s), Sort: arrSort(s), Idx: p.T}}
 		}
+	case *ast.IndexExpr:
+		// G[k] for a ghost variable of map type: one slot
+		if id, ok := x.X.(*ast.Ident); ok {
+			if gv, ok := vc.specs.GhostVars[id.Name]; ok {
+				ge := &Env{vc: vc, pkg: gv.Pkg, vars: map[string]TV{}, heap: e.heap, old: e.old}
+				st := ge.resolveType(gv.Type)
+				if st.Key != nil {
+					vc.hget(e.heap, "GV_"+gv.Name, st.Sort)
+					return []LV{{Arr: "GV_" + gv.Name, Sort: st.Sort, Idx: e.tr(x.Index).T}}
+				}
+			}
+		}
 	case *ast.SelectorExpr:
 		base := e.tr(x.X)
 		return e.fieldLV(base, x.Sel.Name, x)
@@ -271,6 +324,10 @@ func (e *Env) lvals(x ast.Expr) []LV {
 				es := sortOf(u.Elem())
 				vc.hget(e.heap, elemsArr(es), elemsSort(es))
 				return []LV{{Arr: elemsArr(es), Sort: elemsSort(es), Idx: app("sid", v.T)}}
+			case "tags":
+				sv := e.tr(x.Args[0])
+				vc.hget(e.heap, "Tags", tagsSort)
+				return []LV{{Arr: "Tags", Sort: tagsSort, Idx: app("sid", sv.T)}}
 			case "mapcontents":
 				m := e.tr(x.Args[0])
 				mt := types.Unalias(m.S.Go).Underlying().(*types.Map)
